@@ -31,6 +31,7 @@ void operator delete(void* p, std::size_t) noexcept { std::free(p); }
 void operator delete[](void* p, std::size_t) noexcept { std::free(p); }
 int main() {
   vh::Registry reg;
+  std::map<std::string, std::string> fung;
 %(calls)s
   std::ios::sync_with_stdio(false);
   std::string line;
@@ -39,6 +40,7 @@ int main() {
     std::vector<vh::Sx> a = vh::ParseLine(line);
     std::string out;
     if (a.size() < 2) out = "HARNESS-ERROR short";
+    else if (a[0].a == "fungrow") { auto it = fung.find(a[1].a); out = it == fung.end() ? "HARNESS-ERROR unknown type" : "row=" + it->second; }
     else if (a[0].a == "seq") {
       // seq (T v) (T v) ... : write all back to back, then read all back
       vh::SharedWriter() = vh::IWriter();
@@ -111,9 +113,19 @@ def build(pool=None, tag='core', shards=16, force=False):
                     f.write('  r.lib["%s"] = &vh::LibOps<%s, %s, %s>;\n' % (n, n, cx, fd))
             f.write('}\n')
         files.append(p)
+    # IsFungible<Ti,Tj>::value for all ordered pairs, sharded by row
+    for k in range(nsh):
+        p = os.path.join(out, 'fung%d.cpp' % k)
+        with open(p, 'w') as f:
+            f.write('#include "pool_types.h"\n#include <nop/traits/is_fungible.h>\nvoid FungRows%d(std::map<std::string, std::string>& m) {\n' % k)
+            for i in range(k, len(names), nsh):
+                f.write('  { static const bool row[] = {%s};\n    std::string s; for (bool b : row) s.push_back(b ? \'1\' : \'0\'); m["%s"] = s; }\n'
+                        % (', '.join('nop::IsFungible<%s, %s>::value' % (names[i][0], nj[0]) for nj in names), names[i][0]))
+            f.write('}\n')
+        files.append(p)
     with open(os.path.join(out, 'main.cpp'), 'w') as f:
-        f.write(MAIN % {'decls': '\n'.join('void RegisterShard%d(vh::Registry&);' % k for k in range(nsh)),
-                        'calls': '\n'.join('  RegisterShard%d(reg);' % k for k in range(nsh))})
+        f.write(MAIN % {'decls': '\n'.join('void RegisterShard%d(vh::Registry&);\nvoid FungRows%d(std::map<std::string, std::string>&);' % (k, k) for k in range(nsh)),
+                        'calls': '\n'.join('  RegisterShard%d(reg);\n  FungRows%d(fung);' % (k, k) for k in range(nsh))})
     files.append(os.path.join(out, 'main.cpp'))
 
     def cc(p):
